@@ -153,9 +153,14 @@ func runUnit(w *harness.W, u sx.Unit, bound, capExec int) {
 		reported[key] = true
 		w.Fail(&harness.Case{Op: op, Mode: w.Pass, Pattern: u.String(), Hay: strconv.Quote(fmt.Sprint(choices)), Want: want, Got: got, Cluster: op})
 	}
+	// iterative context bounding: everything with 0 deviations, then with at most 1, then with at most 2, … so that an
+	// execution cap truncates only the deepest level; the exploration of a harness stops at its first failing execution
+	// (the first counterexample has the fewest deviations)
+	curBound := 0
+	stop := false
 	var explore func(prefix []int)
 	explore = func(prefix []int) {
-		if capped {
+		if capped || stop {
 			return
 		}
 		if execs >= int64(capExec) {
@@ -192,6 +197,10 @@ func runUnit(w *harness.W, u sx.Unit, bound, capExec int) {
 				fail("data-race", ch, "no unsynchronised conflicting accesses", rp)
 			}
 		}
+		if len(reported) > 0 {
+			stop = true
+			return
+		}
 		for i := len(prefix); i < len(x.Points); i++ {
 			p := x.Points[i]
 			nalt := len(p.Enabled)
@@ -200,7 +209,7 @@ func runUnit(w *harness.W, u sx.Unit, bound, capExec int) {
 			}
 			before := costBefore(x, i)
 			for alt := 1; alt < nalt; alt++ {
-				if before+pointCost(p, alt) > bound {
+				if before+pointCost(p, alt) > curBound {
 					continue
 				}
 				trans++
@@ -209,7 +218,9 @@ func runUnit(w *harness.W, u sx.Unit, bound, capExec int) {
 			}
 		}
 	}
-	explore(nil)
+	for curBound = 0; curBound <= bound && !capped && !stop; curBound++ {
+		explore(nil)
+	}
 	w.C["evaluations"] += execs
 	w.C["states"] += points
 	w.C["transitions"] += trans + execs
